@@ -2,6 +2,7 @@
 package main
 
 import (
+	"sync"
 	"fmt"
 	"go/ast"
 	"go/constant"
@@ -124,6 +125,8 @@ func (c *Ctx) fnId(f *ssa.Function) int {
 	return n
 }
 
+var gnumMu sync.Mutex
+
 func (c *Ctx) globalPtr(g *ssa.Global) Val {
 	et := g.Type().(*types.Pointer).Elem()
 	gi := c.w.globals[g.String()]
@@ -132,11 +135,13 @@ func (c *Ctx) globalPtr(g *ssa.Global) Val {
 		num = gi.num
 	} else {
 		// global of a dependency package
+		gnumMu.Lock()
 		n, ok := c.w.gnum[g.String()]
 		if !ok {
 			n = 50000 + len(c.w.gnum)
 			c.w.gnum[g.String()] = n
 		}
+		gnumMu.Unlock()
 		num = n
 	}
 	if at, ok := et.Underlying().(*types.Array); ok {
